@@ -1,4 +1,5 @@
 import MtxVerif.Model.C15
+import MtxVerif.Gen.C15
 open MtxVerif MtxVerif.C15
 
 abbrev Table := List ((Bytes × Bytes) × Option (List Bytes))
@@ -182,8 +183,17 @@ def stepClient (d : DS) (ev : Ev) (impl : String) : DS × DrvOut :=
   let j := parsed.map fun (_, ps, _) => judge orc d prev pm'.confs false none ps
   finish d d.table prev (statusStr st) impl pm' pm' parsed j
 
+def insStr (a : String) : List String → List String
+  | [] => [a]
+  | x :: xs => if x < a then x :: insStr a xs else a :: x :: xs
+
+/-- the hot-reloadable fields according to the source (regenerated), sorted -/
+def hotFieldsLine : String :=
+  ",".intercalate ((Gen.C15.hotAssigned.filter fun f => f != "Name" && f != "Regexp").foldr insStr [])
+
 def step (d : DS) (op impl : String) : DS × DrvOut :=
   match words op with
+  | ["hotfields"] => (d, { model := hotFieldsLine })
   | "reset" :: nU :: rest =>
     match nU.toNat? with
     | some nU =>
